@@ -7,6 +7,7 @@ import (
 	"context"
 	"errors"
 	"fmt"
+	"github.com/bits-and-blooms/bloom/v3"
 	"iter"
 	"runtime"
 	"sort"
@@ -459,7 +460,7 @@ func checkStatsAndReads(c *ctx, h *History, layout []FileObs, q *bs.Query, sc qS
 	var allBlocks []blk
 	for _, f := range layout {
 		fm := f.Meta
-		t.add(b2s(h.Env.Eng.VerifEvalFilters(&fm.BloomFilters, prune))).n(len(f.Blocks))
+		t.add(b2s(filtersAdmit(&fm.BloomFilters, prune))).n(len(f.Blocks))
 		for _, b := range f.Blocks {
 			pre := true
 			if hasPre {
@@ -471,7 +472,7 @@ func checkStatsAndReads(c *ctx, h *History, layout []FileObs, q *bs.Query, sc qS
 			}
 			fl := true
 			if b.Filters != nil {
-				fl = h.Env.Eng.VerifEvalFilters(b.Filters, prune)
+				fl = filtersAdmit(b.Filters, prune)
 			}
 			t.n(b.Meta.RowDataOffset).n(b.Meta.Rows).add(b2s(pre)).add(b2s(fl)).n(b.Meta.BloomFilterSize)
 			allBlocks = append(allBlocks, blk{f.Ptr, b.Meta})
@@ -854,4 +855,52 @@ func parseBloomExprToks(f []string, pos *int) bs.BloomExpression {
 		e.Children = append(e.Children, parseBloomExprToks(f, pos))
 	}
 	return e
+}
+
+// filtersAdmit is the harness's own evaluation of a prune query against a set of bloom filters, following the
+// Lean `evalFilt` / `filtCond`: each condition consults only the filter of its own kind, an absent filter of
+// that kind cannot rule anything out, OR is any (empty OR false), AND is all, a CONDITION node without a
+// condition is true, an unknown node type is false. Only the membership tests are the bloom library's.
+func filtersAdmit(f *bs.BloomFilters, q *bs.BloomQuery) bool {
+	if q == nil || q.Expression == nil {
+		return true
+	}
+	if f == nil {
+		f = &bs.BloomFilters{}
+	}
+	test := func(fl *bloom.BloomFilter, s string) bool { return fl == nil || fl.TestString(s) }
+	var ev func(e *bs.BloomExpression) bool
+	ev = func(e *bs.BloomExpression) bool {
+		switch e.ExpressionType {
+		case bs.BloomExpressionCondition:
+			if e.Condition == nil {
+				return true
+			}
+			switch e.Condition.Type {
+			case bs.BloomField:
+				return test(f.FieldBloomFilter, e.Condition.Field)
+			case bs.BloomToken:
+				return test(f.TokenBloomFilter, e.Condition.Token)
+			case bs.BloomFieldToken:
+				return test(f.FieldTokenBloomFilter, e.Condition.Field+"::"+e.Condition.Token)
+			}
+			return false
+		case bs.BloomExpressionOr:
+			for i := range e.Children {
+				if ev(&e.Children[i]) {
+					return true
+				}
+			}
+			return false
+		case bs.BloomExpressionAnd:
+			for i := range e.Children {
+				if !ev(&e.Children[i]) {
+					return false
+				}
+			}
+			return true
+		}
+		return false
+	}
+	return ev(q.Expression)
 }
